@@ -7,7 +7,7 @@ def handle (op : String) : Option (P String) :=
   | "db.run" => some do
       let rule ← P.tok; let dt ← P.nat; let out ← P.nat; let span ← P.nat
       let agents ← P.list P.nat; let tracked ← P.list P.nat
-      let steps ← P.list (P.list P.nat)
+      let steps ← P.list (do let rows ← P.list P.nat; let ag ← P.list P.nat; let tr ← P.list P.nat; pure (⟨rows, ag, tr⟩ : StepIn))
       if dt = 0 ∨ out = 0 then failure
       let r := if rule == "currentOnly" then EpochRule.currentOnly else EpochRule.recordStepped
       let s := run r dt out (init r dt span agents tracked) steps
